@@ -32,6 +32,7 @@ type grpHandlerScript struct {
 	Mode string `json:"mode"` // early | drain | ctxwait
 	N    int    `json:"n"`    // messages per claim before the handler acts / the claim trigger fires
 	Mark int    `json:"mark"` // prefix of delivered messages that is marked
+	Slow bool   `json:"slow"` // Cleanup lasts until 3 more heartbeats of this member reached the coordinator (or 3x the session timeout)
 }
 
 type grpTrig struct {
@@ -72,6 +73,7 @@ type grpScenario struct {
 	DClose    bool              `json:"dclose"`   // every group is closed a second time after Close returned
 	NoNet     bool              `json:"nonet"`    // never end a call by the safety-net context cancel
 	DFKind    string            `json:"dfkind"`   // how the start of a claim is failed: notleader (default) | conn
+	SessTO       int            `json:"sessto"`       // ms; > 0: Consumer.Group.Session.Timeout, ENFORCED by the simulated coordinator (heartbeat interval 50 ms)
 	RRetry       *int           `json:"rretry"`       // Consumer.Group.Rebalance.Retry.Max (default 2)
 	ORetry       *int           `json:"oretry"`       // Consumer.Offsets.Retry.Max (default 3)
 	Leaderless   *int           `json:"leaderless"`   // this partition is listed by the metadata with ErrLeaderNotAvailable (leader -1)
@@ -104,6 +106,7 @@ type grpMember struct {
 	joined     bool
 	assignment []byte
 	result     *JoinGroupResponse
+	alive      *vBound // enforced session timeout: restarted by every join / sync / heartbeat of the member
 }
 
 type grpClientState struct {
@@ -140,6 +143,7 @@ type grpSim struct {
 	expect   map[string]bool // clients started up front: the first join round waits for all of them
 	coord    int             // listener (broker id - 1) that currently is the group's coordinator
 	hbOK     int             // heartbeats answered OK (the watchdog's clock)
+	hbSeen   map[string]int  // heartbeat requests seen per client
 	failOff  map[string]int  // client -> partition whose ListOffsets requests fail (claim start fails)
 	failFetch   map[string]string // client -> how its OffsetFetch requests fail during the current Consume call
 	onFetchFail map[string]func() // one-shot hook at the first refused OffsetFetch (Close racing with the failing set-up)
@@ -158,6 +162,7 @@ func newGrpSim(rec *vRec, sc *grpScenario) (*grpSim, error) {
 	}
 	s.expect = map[string]bool{}
 	s.failOff = map[string]int{}
+	s.hbSeen = map[string]int{}
 	s.failFetch = map[string]string{}
 	s.onFetchFail = map[string]func(){}
 	s.connLn = map[net.Conn]int{}
@@ -181,6 +186,10 @@ func newGrpSim(rec *vRec, sc *grpScenario) (*grpSim, error) {
 	for i := range s.lns {
 		s.wg.Add(1)
 		go s.serve(i)
+	}
+	if sc.SessTO > 0 {
+		s.wg.Add(1)
+		go s.reaper()
 	}
 	return s, nil
 }
@@ -570,6 +579,41 @@ func (s *grpSim) removeMember(mid string, why string) {
 	s.cond.Broadcast()
 }
 
+// touch restarts the member's session timer (enforced session timeout)
+func (s *grpSim) touch(mid string) {
+	if s.sc.SessTO > 0 {
+		if m := s.members[mid]; m != nil {
+			m.alive = vNewBound(time.Duration(s.sc.SessTO) * time.Millisecond)
+		}
+	}
+}
+
+// reaper enforces the session timeout like a real coordinator: a member of a stable group whose last heartbeat is older than
+// its session timeout is removed (its later heartbeats / commits get UNKNOWN_MEMBER_ID, the others a rebalance). The bound is
+// load-aware (vBound): it only expires when this process itself had the CPU for that long.
+func (s *grpSim) reaper() {
+	defer s.wg.Done()
+	for {
+		time.Sleep(20 * time.Millisecond)
+		s.mu.Lock()
+		if s.dead {
+			s.mu.Unlock()
+			return
+		}
+		if s.state == "Stable" {
+			for id, m := range s.members {
+				if m.alive == nil || m.joined {
+					continue
+				}
+				if expired, starved := m.alive.state(); expired && !starved {
+					s.removeMember(id, "session_timeout")
+				}
+			}
+		}
+		s.mu.Unlock()
+	}
+}
+
 func (s *grpSim) allJoined() bool {
 	if len(s.members) == 0 {
 		return false
@@ -685,6 +729,7 @@ func (s *grpSim) handleJoin(cl string, r *JoinGroupRequest) (encoderWithHeader, 
 		if m.result != nil {
 			res := m.result
 			m.result = nil
+			s.touch(res.MemberId)
 			s.rec.Ev("join_resp", kv{"c": cl, "err": "ok", "mid": res.MemberId, "gen": int(res.GenerationId)})
 			return res, false
 		}
@@ -762,6 +807,7 @@ func (s *grpSim) handleSync(cl string, r *SyncGroupRequest) (encoderWithHeader, 
 			s.cond.Broadcast()
 		}
 		if s.state == "Stable" {
+			s.touch(r.MemberId)
 			s.rec.Ev("sync_resp", kv{"c": cl, "err": "ok", "claims": grpClaimsOf(m.assignment)})
 			return &SyncGroupResponse{MemberAssignment: m.assignment}, false
 		}
@@ -882,6 +928,8 @@ func (s *grpSim) handleHeartbeat(cl string, r *HeartbeatRequest) (encoderWithHea
 		}
 	}
 	s.rec.Ev("hb", kv{"c": cl, "mid": r.MemberId, "gen": int(r.GenerationId), "err": kind})
+	s.hbSeen[cl]++
+	s.touch(r.MemberId)
 	if kind == "ok" {
 		s.hbOK++
 	}
@@ -1208,8 +1256,27 @@ func (c *grpClient) reached(sess ConsumerGroupSession) {
 }
 
 func (h grpHandler) Cleanup(sess ConsumerGroupSession) error {
-	h.c.run.rec.Ev("cleanup", kv{"c": h.c.name})
-	h.c.fire("cleanup", sess)
+	c := h.c
+	c.run.rec.Ev("cleanup", kv{"c": c.name})
+	c.fire("cleanup", sess)
+	if c.sess().H.Slow {
+		// a long Cleanup, measured in the member's own heartbeats instead of wall-clock time: it lasts until three more
+		// heartbeat requests of this client have reached the coordinator, or (load-aware bound) 3x the session timeout
+		sim := c.run.sim
+		seen := func() int { sim.mu.Lock(); defer sim.mu.Unlock(); return sim.hbSeen[c.name] }
+		to := time.Duration(c.run.sc.SessTO) * time.Millisecond
+		if to <= 0 {
+			to = 400 * time.Millisecond
+		}
+		start := seen()
+		b := vNewBound(3 * to)
+		expired, starved := false, false
+		for seen() < start+3 && !expired {
+			time.Sleep(10 * time.Millisecond)
+			expired, starved = b.state()
+		}
+		c.run.rec.Ev("cleanup_wait", kv{"c": c.name, "hbs": seen() - start, "expired": expired && !starved})
+	}
 	return nil
 }
 
@@ -1312,6 +1379,10 @@ func grpConfig(sc *grpScenario, name string) *Config {
 	conf.Consumer.Offsets.Retry.Max = grpORetry(sc)
 	conf.Consumer.Group.Session.Timeout = time.Second
 	conf.Consumer.Group.Heartbeat.Interval = 20 * time.Millisecond
+	if sc.SessTO > 0 {
+		conf.Consumer.Group.Session.Timeout = time.Duration(sc.SessTO) * time.Millisecond
+		conf.Consumer.Group.Heartbeat.Interval = 50 * time.Millisecond
+	}
 	conf.Consumer.Group.Rebalance.Timeout = 2 * time.Second
 	conf.Consumer.Group.Rebalance.Retry.Max = 2
 	if sc.RRetry != nil {
